@@ -503,7 +503,15 @@ def run(ctx):
             continue
         # the same derived files for every parser that reads this example (deterministic per file)
         vr = __import__("random").Random(f"{ctx.seed}:{j['fname']}")
-        for tag, vt in make_variants(text, vr):
+        cand = make_variants(text, vr)
+        if quick:
+            # the format-aware "switched on" variants always; the rest: a seeded choice, generic formats for a third of the parsers
+            head = [c for c in cand if c[0].startswith(("datum_", "with_"))][:2]
+            rest = [c for c in cand if c not in head]
+            vr.shuffle(rest)
+            aware = bool(head) or any(c[0].startswith(("comment_text", "one_comment")) for c in cand)
+            cand = (head + rest[:1]) if aware else (rest[:2] if vr.random() < 0.34 else [])
+        for tag, vt in cand:
             vname = f"{j['fname']}__{tag}"
             vpath = os.path.join(vdir, vname)
             if not os.path.exists(vpath):
@@ -560,7 +568,7 @@ def run(ctx):
             if same_family(a, b_):
                 k = (1 if hv_ else 2) if quick else (3 if hv_ else NI)
             elif quick:
-                k = 1 if rng.random() < (0.1 if hv_ else 0.5) else 0      # seeded half of the cross-family pairs
+                k = 1 if rng.random() < (0.1 if hv_ else 0.4) else 0      # seeded 40 % of the cross-family pairs
             else:
                 k = 1 if hv_ else 3
             for il in rng.sample(range(NI), k):
@@ -783,7 +791,7 @@ def run(ctx):
         rule=("corpus = every listed parser x its example file (tests/parsers/example_files/<name>), the files the tests name, extra files for "
               "the untested parsers and six argument variants; each parsed in 2 fresh interpreters (2 hash seeds). Histories: per ordered pair "
               "(A,B) of corpus jobs incl. A=B the interleavings of {construct A, parse A, mutate result A} with {construct B, parse B} followed by "
-              "parse_file(A) again - 2 (quick) / all 10 (thorough) within a parser family, 1 for a seeded half of the cross-family pairs (quick) / 3 for all (thorough); a re-parse "
+              "parse_file(A) again - 2 (quick) / all 10 (thorough) within a parser family, 1 for a seeded 40 % of the cross-family pairs (quick) / 3 for all (thorough); a re-parse "
               "history per job; triples A,B,C (sampled in quick; all within family + 30000 across in thorough). Generated RINEX 3 headers "
               "(1-4 files x 1-4 OBS TYPES lines, with/without leading continuation line) against the parser_cache model. "
               "distinct_nontrivial = distinct histories + plug-in rows"),
@@ -919,12 +927,25 @@ def resolution_histories(ctx, table, corpus):
             ctx.violation({"kind": "resolve_worker_failed", "history": label, "error": str(res)[:400]},
                           what="a resolution-history interpreter crashed", found=False)
             continue
-        terms.append("check_resolution (" + ", ".join([has_t, files_t, jobs_t, emit.lst(op_term(o) for o in ops),
-                                                       emit.lst("(" + obs_term(r) + ")" for r in res)]) + ")")
+        terms.append("check_resolution (has_t, files_t, jobs_t, " + emit.lst(op_term(o) for o in ops) + ", "
+                     + emit.lst("(" + obs_term(r) + ")" for r in res) + ")")
         meta.append((label, ops, res))
         ctx.case(("RES", label, json.dumps([strip(o) for o in ops])[:20000]), nontrivial=True,
                  sample={"resolution_history": label, "first_ops": [strip(o) for o in ops[:4]]} if len(ctx.samples) < 6 else None)
-    vs = ctx.coq_cases(terms, REQ_RES)
+    nsh = 4 if quick else 16
+    groups_ = [list(range(len(terms)))[k::nsh] for k in range(nsh)]
+    groups_ = [g for g in groups_ if g]
+    shards = ["let has_t := " + has_t + " in\nlet files_t := " + files_t + " in\nlet jobs_t := " + jobs_t + " in\n"
+              "List.concat " + emit.lst(terms[i] for i in g) for g in groups_]
+    svs = ctx.coq_cases(shards, REQ_RES)
+    vs = [None] * len(terms)
+    for g, sv in zip(groups_, svs):
+        if sv is None or len(sv) != sum(len(meta[i][1]) for i in g):
+            continue
+        pos = 0
+        for i in g:
+            vs[i] = sv[pos:pos + len(meta[i][1])]
+            pos += len(meta[i][1])
     reported = 0
     for (label, ops, res), v in zip(meta, vs):
         if v is None or len(v) != len(ops):
